@@ -671,3 +671,8 @@ mod tests {
         positions.insert(start);
     }
 }
+
+// Verification hook (add-only, compiled only by `cargo kani`): bounded harnesses kept outside the repository.
+#[cfg(kani)]
+#[path = "/verif/kani/inmod/position.rs"]
+mod verif_kani;
